@@ -56,6 +56,12 @@ def install():
     ao.FiberThreadEvent.klass = CSourceThreadEvent
     # any lock a (repaired) SingletonDecorator instance created at import time is a real lock:
     # give every decorator instance a controlled one
+    # module-level decorators live across executions: remember every attribute they have now, reset() puts them back
+    # (a decorator may keep more state than `instance`, e.g. a lazily made lock)
+    for m in MODULES:
+        for name, val in list(vars(m).items()):
+            if isinstance(val, singleton.SingletonDecorator) and id(val) not in _PRISTINE:
+                _PRISTINE[id(val)] = (val, {k: v for k, v in vars(val).items() if k != "instance"})
     _installed = True
 
 
@@ -79,8 +85,17 @@ def fix_singleton_locks():
                 fresh_locks(val)
 
 
+_PRISTINE = {}
+
+
 def reset():
     """fresh runtime singletons for one execution (call with the scheduler ACTIVE)"""
+    for dec, attrs in _PRISTINE.values():
+        for k in list(vars(dec)):
+            if k not in attrs and k != "instance":
+                delattr(dec, k)
+        for k, v in attrs.items():
+            setattr(dec, k, v)
     for n in SINGLETONS:
         getattr(ao, n).instance = None
     fix_singleton_locks()
